@@ -307,6 +307,57 @@ theorem C04_ddl_status (n : Ident) :
   simp only [List.mem_cons, List.not_mem_nil, or_false] at hk
   rcases hk with rfl | rfl | rfl | rfl <;> rfl
 
+theorem lastPart_no_dot (cs acc : List Char) (h : '.' ∉ cs) :
+    cs.foldl (fun acc c => if c = '.' then [] else acc ++ [c]) acc = acc ++ cs := by
+  induction cs generalizing acc with
+  | nil => simp
+  | cons c cs ih =>
+    simp only [List.mem_cons, not_or] at h
+    simp only [List.foldl_cons, if_neg (Ne.symm h.1)]
+    rw [ih _ h.2]; simp
+
+/-- **`IDENTIFIER('name')` as object name**: for an unqualified literal the status names the *upper-cased* literal —
+    `create table identifier('orders')` answers "Table ORDERS successfully created." — exactly what Snowflake shows (the
+    status branch's own `.upper()` is what does it: `transforms.identifier` runs after the general upper-casing). -/
+theorem C04_ddl_status_identifier (k : DdlKind) (lit : List Char) (hk : k.named = true) (h : '.' ∉ lit) :
+    ddlStatus k (identifierArg lit) = Spec.ddlStatus k (Spec.identifierName lit) false ∧
+    ddlStatus k (identifierArg lit) = some (statusPrefix k ++ lit.map upperAscii ++ statusSuffix k) := by
+  have : lastPart lit = lit := by simpa [lastPart] using lastPart_no_dot lit [] h
+  simp [ddlStatus, Spec.ddlStatus, hk, identifierArg, Spec.identifierName, this, Ident.norm]
+
+/-- known finding `C04/ddl-status-identifier-qualified`: `create table identifier('s1.q2')` answers "Table S1.Q2 …" (the whole
+    literal is one identifier) where the object's own name is Q2. -/
+theorem finding_C04_ddl_status_identifier_qualified :
+    ddlStatus .createTable (identifierArg "s1.q2".toList) ≠ Spec.ddlStatus .createTable (Spec.identifierName "s1.q2".toList) false := by
+  decide
+
+/-- **Bound values are data, whatever they contain**: with the code's phase order (inline session variables into the command
+    text, then bind pyformat/format parameters) the literals that reach the engine are exactly the bound values — for every
+    variable substitution `f`, every command and every value list (a value such as 'charged at $rate per unit' is stored as is). -/
+theorem C04_bound_values_untouched (f : List Char → List Char) (cmd : List Seg) (vs : List (List Char))
+    (hcmd : litValues cmd = []) (hlen : placeholders cmd ≤ vs.length) :
+    litValues (prepare f cmd vs) = vs.take (placeholders cmd) := by
+  unfold prepare
+  induction cmd generalizing vs with
+  | nil => simp [inlineSegs, bindSegs, litValues, placeholders]
+  | cons s r ih =>
+    cases s with
+    | text t => simpa [inlineSegs, bindSegs, litValues, placeholders] using ih vs (by simpa [litValues] using hcmd) (by simpa [placeholders] using hlen)
+    | lit v => simp [litValues] at hcmd
+    | ph =>
+      cases vs with
+      | nil => simp [placeholders] at hlen
+      | cons v vs' =>
+        simp only [inlineSegs, bindSegs, litValues, placeholders, List.take_succ_cons, List.cons.injEq, true_and]
+        exact ih vs' (by simpa [litValues] using hcmd) (by simpa [placeholders] using hlen)
+
+/-- witness: binding first and inlining afterwards rewrites the value (`$rate` ↦ `5`). -/
+theorem C04_swapped_phases_rewrite_values :
+    let f : List Char → List Char := fun s => if s = "$rate".toList then "5".toList else s
+    litValues (prepareSwapped f [.text "insert into t values (".toList, .ph, .text ")".toList] ["$rate".toList]) = ["5".toList] ∧
+    litValues (prepare f [.text "insert into t values (".toList, .ph, .text ")".toList] ["$rate".toList]) = ["$rate".toList] := by
+  decide
+
 /-- the full DDL-status statement: for every kind and name, whether or not an IF [NOT] EXISTS made the
     statement a no-op, the cursor answers what Snowflake answers, through a well-formed status select -/
 def C04_ddl_Full : Prop :=
